@@ -85,6 +85,12 @@ class ExprMixin:
                 k = z3.Const(fresh_name('ek'), sort_of(v.k))
                 st.fact(z3.ForAll([k], z3.Implies(z3.Select(self.dict_dom(st, v), k), c > 0)))
             return c > 0
+        if isinstance(v, VRef) and v.cls is not None:
+            d = self.reg.classes.get(v.cls) or self.reg.class_by_key.get(v.cls)
+            if d is not None and d.short in getattr(self.reg, 'unknown_truthiness', ()):
+                # an object supplied by the application (a resource / site implementation): its class may define __bool__ or
+                # __len__, so whether it counts as true is not known
+                return z3.Function('obj_truthy', I, Bo)(v.t)
         if isinstance(v, (VRef, VFunc)):
             return z3.BoolVal(True)
         if isinstance(v, VStr):
